@@ -390,7 +390,7 @@ def crash_key(ex):
             at = "%s:%s" % (fn[k + 1:], fr.name)
             if fn[k:].startswith("/amoco/arch/") and not fn.endswith("/arch/core.py"):
                 arch = at
-    return type(ex).__name__, (arch or at)
+    return type(ex).__name__, (arch or at), at
 
 
 class DecTimeout(BaseException):
@@ -427,7 +427,8 @@ def guarded(fn, *a, **k):
             signal.setitimer(signal.ITIMER_VIRTUAL, 0)
         return r, None
     except DecTimeout as ex:
-        return None, ("Timeout", crash_key(ex)[1])
+        k = crash_key(ex)
+        return None, ("Timeout", k[1], k[1])
     except Exception as ex:  # an observation, never a harness crash
         return None, crash_key(ex)
 
@@ -628,5 +629,6 @@ def mute_stdout():
     """worker processes only: some amoco formatters print() debugging text"""
     try:
         sys.stdout = open(os.devnull, "w")
+        sys.stderr = open(os.devnull, "w")
     except OSError:
         pass
